@@ -417,6 +417,22 @@ func checkC14(r *Run) {
 			return descgen.Rename(e, n+"patternentries")
 		})
 	}
+	// protoc invoked with two files at once (the dependency is generated too, with a selected type of its own): the
+	// response carries one file per generated input; their order and contents must not vary from run to run
+	// (both files in one Go package: protoc-gen-gogo refuses one run over files of different import paths)
+	for _, unsorted := range []bool{false, true} {
+		unsorted := unsorted
+		reqs = append(reqs, func() *descgen.Entry {
+			e := descgen.K10(false)
+			e.Cfg.Types = append(e.Cfg.Types, "Shared", "Gamma")
+			e.Tags = append(e.Tags, "generate-dep-too")
+			if unsorted {
+				e.Cfg.Sort, e.Cfg.SortSet = false, true
+				return descgen.Rename(e, "k10atwofilesunsorted")
+			}
+			return descgen.Rename(e, "k10atwofiles")
+		})
+	}
 	nr := r.pick(4, 90)
 	for i := 0; i < nr; i++ {
 		i := i
@@ -483,6 +499,9 @@ func checkC14(r *Run) {
 			}
 			h := sha(c.Plugin.Stdout)
 			hashes[h] = append(hashes[h], c.Name)
+			if c.Resp != nil && len(c.Resp.File) >= 2 {
+				r.Counters["responses-with-several-files"]++
+			}
 		}
 		if len(hashes) > 1 {
 			var names [][]string
